@@ -149,7 +149,7 @@ def real_map_session(P, mode, batches):
                     "evaluated": sorted(u for _, u in log),
                     "eval_order": [u for _, u in log],
                     "arrival": [canon_arrival(x) for x in sched.caller_took[n_took:]],
-                    "turns": sched.turns,
+                    "turns": sched.turns, "rr_used": sched.rr, "sched_pos": sched.pos,
                 })
                 if stuck:
                     break
@@ -261,6 +261,74 @@ def one_map_case(ctx, case, label="gen"):
         prior |= set(ob["uids"])
         if ob["stuck"]:
             break
+
+
+# ---------------------------------------------------------------------------------------------
+# termination under fair schedules (theorem map_terminates_under_every_fair_schedule)
+
+
+def fair_rounds(P, sched):
+    """complete fair rounds (every actor 0..P at least once), counted greedily from the left"""
+    n, missing = 0, set(range(P + 1))
+    for e in sched:
+        missing.discard(e)
+        if not missing:
+            n, missing = n + 1, set(range(P + 1))
+    return n
+
+
+def gen_fair_case(rng):
+    P = rng.choice([1, 2, 2, 3])
+    n = rng.choice([0, 1, 2, 3, 4, 5, 6])
+    bound = 4 * n * P + 1
+    rounds = rng.choice([bound, bound, bound + rng.randint(1, 3), rng.randint(0, 6), rng.randint(0, 2 * n + 2)])
+    sched = []
+    if rng.random() < 0.3:  # an unfair stretch first: one actor is not served at all
+        absent = rng.randint(0, P)
+        sched += [rng.choice([a for a in range(P + 2) if a != absent]) for _ in range(rng.randint(1, 12))]
+    for _ in range(rounds):
+        r = list(range(P + 1))
+        rng.shuffle(r)
+        for _ in range(rng.choice([0, 0, 0, 1, 2, 4])):  # a round may serve actors several times, in any order
+            r.insert(rng.randrange(len(r) + 1), rng.randint(0, P))
+        sched += r
+    return {"kind": "fair", "P": P, "mode": rng.choice(MODES), "js": gen_outcomes(rng, n), "sched": sched}
+
+
+def one_fair_case(ctx, case, label="gen"):
+    """`map` along a schedule with a known number of fair rounds: when the schedule contains the rounds the
+    theorem asks for, the real `map` has returned before the schedule is used up (no round-robin continuation)"""
+    P, js, schedule = case["P"], case["js"], case["sched"]
+    script, obs, extra = real_map_session(P, case["mode"], [{"js": js, "sched": schedule}])
+    ob = obs[0]
+    ans = ctx.lean.ask({"p": "C14", "q": "fair", "P": P, "js": [[o, i] for i, o in enumerate(js)], "sched": schedule})
+    if "driver_error" in ans:
+        ctx.disagree("C14.driver", case, None, ans)
+        return
+    within = (not ob["stuck"]) and ob["rr_used"] == 0
+    enough = ans["fair_rounds"] >= ans["bound"]
+    ctx.case({"kind": "fair", "P": P, "js": js, "sched": schedule}, nontrivial=bool(P >= 2 and len(js) >= 2 and enough),
+             sample={"kind": "fair", "P": P, "js": js, "fair_rounds": ans["fair_rounds"], "bound": ans["bound"],
+                     "returned_within_schedule": within})
+    ctx.hit("fair:rounds>=bound" if enough else "fair:rounds<bound")
+    if ans["fair_rounds"] != fair_rounds(P, schedule) or ans["bound"] != 4 * len(js) * P + 1:
+        ctx.disagree("C14.fair.rounds", dict(case, label=label), [fair_rounds(P, schedule), 4 * len(js) * P + 1],
+                     [ans["fair_rounds"], ans["bound"]])
+    if ans["phi_end"] > ans["phi_start"] or (enough and not ans["finished"]):
+        ctx.disagree("C14.fair.model-contradicts-theorem", dict(case, label=label), None, ans)
+    if enough and not within:
+        ctx.disagree("C14.fair.returned-within-schedule", dict(case, label=label), within, ans["finished"])
+        ctx.fail("C14-map-not-within-fair-bound",
+                 f"SneakyPool.map has not returned after {ans['fair_rounds']} fair rounds of the schedule (bound {ans['bound']})",
+                 dict(case, label=label), {"stuck": ob["stuck"], "round_robin_turns_needed": ob["rr_used"]})
+    if not enough:
+        soft(ctx, "map: returned within the given schedule (fewer fair rounds than the bound)", within == ans["finished"])
+    if within and ans["finished"]:
+        impl = {"yielded": [canon_value(v) for v in ob["yielded"]], "raised": ob["raised"], "leftover": ob["leftover"]}
+        model = {"yielded": [list(script.value(u)) for u in ans["yielded"]], "raised": ans["raised"], "leftover": ans["leftover"]}
+        if impl != model:
+            ctx.disagree("C14.fair.map", dict(case, label=label), impl, model)
+    map_oracle(ctx, script, ob, dict(case, label=label), set())
 
 
 # ---------------------------------------------------------------------------------------------
@@ -792,6 +860,8 @@ def dispatch(ctx, case, label="gen"):
             one_runjobs_case(ctx, case, label)
         elif kind == "init":
             one_init_case(ctx, case, label)
+        elif kind == "fair":
+            one_fair_case(ctx, case, label)
         elif kind == "caller":
             import c16
             c16.install_pool()
@@ -838,6 +908,8 @@ def run(ctx):
         dispatch(ctx, gen_runjobs_case(ctx.rng))
     for k in range(ctx.n(80, 800)):
         dispatch(ctx, gen_init_case(ctx.rng))
+    for k in range(ctx.n(60, 600)):
+        dispatch(ctx, gen_fair_case(ctx.rng))
     exhaustive_small(ctx)
     ctx.notes["scheduled_sessions_wall_s"] = round(time.time() - t0, 1)
     real_process_runs(ctx, ctx.n(3, 40))
